@@ -114,7 +114,7 @@ Expected(c) ==
                 \o S2B("[") \o Resolved(c, "b") \o S2B("2]") \o S2B("$")
 
 (* ---- stand-alone users: a template that imports blocks with use but extends nothing (and may define no block itself) ---- *)
-NSolo == 9
+NSolo == 13
 SoloU == ("u" :> <<BlockS("h", <<Who("u"), Lbl("uh")>>)>>) @@ ("u2" :> <<BlockS("h2", <<Who("u2"), Lbl("u2h")>>)>>)
 SoloBody(k) ==
   CASE k = 1 -> <<UseS(StrE("u"), << <<"h", "g">> >>), Lbl("^"), PrintS(CallE("block", <<StrE("g")>>)), Lbl("$")>>
@@ -131,12 +131,24 @@ TwiceTpls(k) ==
                  BlockS("side", <<Lbl("M.side["), PrintS(CallE("parent", <<>>)), Lbl("]")>>)>>)
   @@ ("t1" :> IF k = 8 THEN <<ExtendsS(StrE("root")), UseS(StrE("traits"), <<>>), UseS(StrE("other"), <<>>), UseS(StrE("traits"), << <<"a", "side">> >>)>>
               ELSE <<ExtendsS(StrE("mid")), UseS(StrE("traits"), <<>>)>>)
-SoloTpls(k) == IF k >= 6 THEN TwiceTpls(k) ELSE SoloU @@ ("t1" :> SoloBody(k))
+(* blocks written inside the branch of an if (then, elseif, else) are blocks of their template like any other *)
+PB(pre) == <<Lbl(pre \o "["), PrintS(CallE("parent", <<>>)), Lbl("]")>>
+CondTpls(k) ==
+  ("root" :> <<Lbl("<"), BlockS("a", <<Lbl("R.a")>>), Lbl("|"),
+               IfS(BoolE(TRUE), <<BlockS("c", <<Who("root"), Lbl("R.c")>>)>>, <<>>, FALSE), Lbl(">")>>)
+  @@ ("mid" :> <<ExtendsS(StrE("root")),
+                 CASE k = 9 -> IfS(BoolE(TRUE), <<BlockS("a", <<Who("mid")>> \o PB("M.a"))>>, <<>>, FALSE)
+                   [] k = 10 -> IfChain(<<[c |-> BoolE(FALSE), body |-> <<Lbl("no")>>], [c |-> BoolE(TRUE), body |-> <<BlockS("a", <<Who("mid")>> \o PB("M.a"))>>]>>, <<>>, FALSE)
+                   [] k = 11 -> IfS(BoolE(FALSE), <<Lbl("no")>>, <<BlockS("a", <<Who("mid")>> \o PB("M.a"))>>, TRUE)
+                   [] OTHER -> IfS(BoolE(TRUE), <<BlockS("c", <<Who("mid")>> \o PB("M.c"))>>, <<>>, FALSE)>>)
+  @@ ("t1" :> <<ExtendsS(StrE("mid")), BlockS("a", <<Who("t1")>> \o PB("C.a")), BlockS("c", <<Who("t1")>> \o PB("C.c"))>>)
+SoloTpls(k) == IF k >= 9 THEN CondTpls(k) ELSE IF k >= 6 THEN TwiceTpls(k) ELSE SoloU @@ ("t1" :> SoloBody(k))
                @@ (CASE k = 2 -> ("top" :> <<Lbl("["), IncludeS(StrE("t1"), NoE, FALSE), Lbl("]")>>)
                      [] k = 5 -> ("top" :> <<Lbl("["), EmbedS(StrE("t1"), NoE, FALSE, <<>>), Lbl("]")>>)
                      [] OTHER -> <<>>)
 SoloEntry(k) == IF k \in {2, 5} THEN "top" ELSE IF k = 6 THEN "mid" ELSE "t1"
-SoloExpected(k) == CASE k \in {6, 7} -> S2B("<T.a|M.side[T.a]>") [] k = 8 -> S2B("<T.a|O.side[T.a]>") [] k = 1 -> S2B("^uh$") [] k = 3 -> S2B("^ouh$") [] k = 4 -> S2B("^u2huh$")
+SoloExpected(k) == CASE k \in {9, 10, 11} -> S2B("<C.a[M.a[R.a]]|C.c[R.c]>") [] k = 12 -> S2B("<C.a[R.a]|C.c[M.c[R.c]]>")
+                     [] k \in {6, 7} -> S2B("<T.a|M.side[T.a]>") [] k = 8 -> S2B("<T.a|O.side[T.a]>") [] k = 1 -> S2B("^uh$") [] k = 3 -> S2B("^ouh$") [] k = 4 -> S2B("^u2huh$")
                      [] k \in {2, 5} -> S2B("[^uh$]") [] OTHER -> S2B("^uh$")
 IsSolo == v_idx >= Total
 
